@@ -27,6 +27,14 @@ pub struct Wire {
 
 pub const DHT_PROTO: &str = "/dht/1.0.0";
 
+/// Same field order and types as the crate-private `network::RequestResponseEnvelope`.
+#[derive(Debug, Clone, Serialize, Deserialize)]
+pub struct RrEnvelope {
+    pub message_id: String,
+    pub is_response: bool,
+    pub payload: Vec<u8>,
+}
+
 #[derive(Clone, Debug)]
 pub enum Reply {
     /// never answers
@@ -75,6 +83,8 @@ pub struct SimNet {
     pub counter: AtomicU64,
     /// refuse every dial (used to make unknown peers unreachable)
     pub refuse_unknown_dials: AtomicBool,
+    /// message ids of /rr/ request envelopes that reached the wire, in order
+    pub rr_ids: Mutex<Vec<String>>,
 }
 
 pub fn op_name(op: &DhtNetworkOperation) -> String {
@@ -108,6 +118,7 @@ impl SimNet {
             delay_max_us: AtomicU64::new(0),
             counter: AtomicU64::new(0),
             refuse_unknown_dials: AtomicBool::new(false),
+            rr_ids: Mutex::new(vec![]),
         })
     }
     pub fn add_scripted(&self, id: &str, addr: &str, behaviour: Behaviour) {
@@ -166,7 +177,16 @@ impl VerifRouter for SimNet {
         let dht: Option<DhtNetworkMessage> = wire.as_ref().filter(|w| w.protocol == DHT_PROTO).and_then(|w| postcard::from_bytes(&w.data).ok());
         let (is_request, op, msg_id) = match &dht {
             Some(m) => (matches!(m.message_type, DhtMessageType::Request), op_name(&m.payload), m.message_id.clone()),
-            None => (false, wire.as_ref().map(|w| w.protocol.clone()).unwrap_or_default(), String::new()),
+            None => {
+                let rr: Option<RrEnvelope> = wire.as_ref().filter(|w| w.protocol.starts_with("/rr/")).and_then(|w| postcard::from_bytes(&w.data).ok());
+                match rr {
+                    Some(env) => {
+                        if !env.is_response { self.rr_ids.lock().unwrap().push(env.message_id.clone()); }
+                        (!env.is_response, wire.as_ref().map(|w| w.protocol.clone()).unwrap_or_default(), env.message_id)
+                    }
+                    None => (false, wire.as_ref().map(|w| w.protocol.clone()).unwrap_or_default(), String::new()),
+                }
+            }
         };
         let mut ev = TraceEv { at_ms: self.now_ms(), from: from.into(), to: to.into(), is_request, op, msg_id, delivered: false };
         // real destination
